@@ -19,6 +19,7 @@ pub mod c42;
 pub mod cfgdiff;
 pub mod sem;
 pub mod shapes;
+pub mod storage;
 
 type CheckFn = fn(Tier, u64) -> i32;
 
@@ -27,15 +28,18 @@ fn table() -> Vec<(&'static str, CheckFn)> {
         ("C01", c01::run),
         ("C02", c02::run),
         ("C03", c03::run),
+        ("C04", storage::run_c04),
         ("C05", c05::run),
         ("C06", c06::run),
         ("C07", cfgdiff::run_c07),
         ("C08", sem::run_c08),
         ("C11", c11::run_c11),
         ("C12", c12::run),
+        ("C13", storage::run_c13),
         ("C14", c11::run_c14),
         ("C15", c15::run),
         ("C16", c16::run),
+        ("C18", storage::run_c18),
         ("C21", sem::run_c21),
         ("C22", sem::run_c22),
         ("C23", sem::run_c23),
